@@ -1,5 +1,61 @@
-(* C08 — Optimization terminates and is idempotent (placeholder for the rule-measure theorems). *)
-From DA Require Import PyBase.
+(* C08 — Optimization terminates and is idempotent.
+   Rule-measure theorems for the modelled rewrite rules (theories/ExprRules.v): the linear
+   interpretation [mu] ([Slice](x) = 3x, [Transpose](x) = [Rechunk](x) = [ExpandDims](x) = x + 1,
+   [Elemwise](xs) = sum xs + 1, leaves 1) is strictly decreased by every rule and is strictly
+   monotone in every child, so any sequence of applications of these rules, at any positions of an
+   expression, has length at most mu of the initial expression: simplification with these rules
+   terminates, and at its fixpoint no rule applies (a second pass changes nothing). *)
+From DA Require Import PyBase Slicing NdArray ExprRules ExprRulesFacts.
 Open Scope Z_scope.
-Example C08_placeholder : zsum [1;2;3] = 6. Proof. reflexivity. Qed.
-Print Assumptions C08_placeholder.
+
+Theorem C08_rules_decrease_measure :
+  forall before after,
+  (rule_slice_identity before = Some after \/ rule_slice_slice before = Some after \/
+   rule_slice_elemwise before = Some after \/ rule_slice_transpose before = Some after \/
+   rule_slice_arange before = Some after \/ rule_slice_expand_dims before = Some after \/
+   rule_transpose_transpose before = Some after \/ rule_transpose_identity before = Some after \/
+   rule_rechunk_rechunk before = Some after \/ rule_rechunk_noop before = Some after) ->
+  (mu after < mu before)%nat.
+Proof.
+  intros before after H. destruct H as [H|[H|[H|[H|[H|[H|[H|[H|[H|H]]]]]]]]].
+  - apply rule_slice_identity_mu. exact H.
+  - apply rule_slice_slice_mu. exact H.
+  - apply rule_slice_elemwise_mu. exact H.
+  - apply rule_slice_transpose_mu. exact H.
+  - apply rule_slice_arange_mu. exact H.
+  - apply rule_slice_expand_dims_mu. exact H.
+  - apply rule_transpose_transpose_mu. exact H.
+  - apply rule_transpose_identity_mu. exact H.
+  - apply rule_rechunk_rechunk_mu. exact H.
+  - apply rule_rechunk_noop_mu. exact H.
+Qed.
+
+(* closure under contexts: a decrease in a child is a decrease of the parent *)
+Theorem C08_measure_monotone_unary :
+  forall e e', (mu e' < mu e)%nat ->
+  (forall ix o, mu (ESlice e' ix o) < mu (ESlice e ix o))%nat /\
+  (forall axes, mu (ETranspose e' axes) < mu (ETranspose e axes))%nat /\
+  (forall s c p b pp, mu (ERechunk e' s c p b pp) < mu (ERechunk e s c p b pp))%nat /\
+  (forall axes, mu (EExpandDims e' axes) < mu (EExpandDims e axes))%nat /\
+  (forall shp, mu (EBroadcastTo e' shp) < mu (EBroadcastTo e shp))%nat.
+Proof. exact mu_monotone_unary. Qed.
+
+Theorem C08_measure_monotone_elemwise :
+  forall op l1 e e' l2, (mu e' < mu e)%nat ->
+  (mu (EElemwise op (l1 ++ e' :: l2)) < mu (EElemwise op (l1 ++ e :: l2)))%nat.
+Proof. exact mu_monotone_elemwise. Qed.
+
+(* the measure is positive: at most (mu e - 1) rule applications from e *)
+Theorem C08_measure_positive : forall e, (1 <= mu e)%nat.
+Proof. exact mu_pos. Qed.
+
+Example C08_measure_ex :
+  let x := ELeaf 1 [4; 3] [[4]; [3]] in let y := ELeaf 2 [3] [[3]] in
+  let before := ESlice (EElemwise 1 [x; y]) [ISlice (mkslice (Some 1) None None); IInt 0] true in
+  exists after, rule_slice_elemwise before = Some after /\ mu before = 9%nat /\ mu after = 7%nat.
+Proof. eexists. vm_compute. repeat split; reflexivity. Qed.
+
+Print Assumptions C08_rules_decrease_measure.
+Print Assumptions C08_measure_monotone_unary.
+Print Assumptions C08_measure_monotone_elemwise.
+Print Assumptions C08_measure_positive.
